@@ -96,29 +96,23 @@ def useName (st : St) (r : UseReq) : String :=
     if r.injected.isEmpty then r.func.name
     else ",".intercalate (sortStrings (r.injected.map st.nameOf)) ++ "." ++ r.func.name
 
-/-- what `get_task` remembers of a request: injected tasks count by *name* (injection reads `env[task.name]`) -/
-def UseReq.sig (st : St) (r : UseReq) :
-    Func × List (String × Option String) × List (String × String × Option String) × DepsType × Bool :=
-  (r.func, r.injArgs.map (fun x => (st.nameOf x.1, x.2)),
-   r.injKwargs.map (fun x => (x.1, st.nameOf x.2.1, x.2.2)), r.depsType, r.serialize)
-
-def sameSig (st : St) (r r' : UseReq) : Bool :=
-  decide (r.func = r'.func) && decide ((r.sig st).2.1 = (r'.sig st).2.1) && decide ((r.sig st).2.2.1 = (r'.sig st).2.2.1)
-    && decide (r.depsType = r'.depsType) && decide (r.serialize = r'.serialize)
-
 inductive Res where
   | ok (t : Nat)
   | valueError
   deriving DecidableEq, Repr
 
+/-- the repaired cache: a task is reused only for the very same request -/
+def findUse (cache : List (String × Nat × UseReq)) (name : String) (r : UseReq) : Option Nat :=
+  (cache.find? fun e => decide (e.1 = name) && decide (e.2.2 = r)).map (·.2.1)
+
 /-- `Use.get_task()` -/
 def getTask (v : Variant) (st : St) (r : UseReq) : Res × St :=
   let name := useName st r
-  match lookup st.useCache name with
-  | some (t, r') =>
-    match v with
-    | .pinned => (.ok t, st)
-    | .fixed => if sameSig st r r' then (.ok t, st) else (.valueError, st)
+  let hit := match v with
+    | .pinned => (lookup st.useCache name).map (·.1)     -- the pinned cache: by name only
+    | .fixed => findUse st.useCache name r
+  match hit with
+  | some t => (.ok t, st)
   | none =>
     let (t, st) := st.newTask name (.use r)
     (.ok t, { st with useCache := st.useCache ++ [(name, t, r)] })
@@ -139,16 +133,16 @@ def fkey (r : MakeReq) : FKey :=
 def runTaskName (r : MakeReq) (facName : String) : String :=
   (match r.userName with | some n => n | none => "#" ++ toString (repr (fkey r))) ++ "." ++ facName
 
+def findRun (cache : List (FKey × Nat × MakeReq)) (key : FKey) (r : MakeReq) : Option Nat :=
+  (cache.find? fun e => decide (e.1 = key) && decide (e.2.2 = r)).map (·.2.1)
+
 /-- `make` on factory `fac` (number `f`), once the keywords have been merged with the factory defaults -/
 def makeIn (v : Variant) (st : St) (f : Nat) (fac : Factory) (r : MakeReq) : Res × St :=
-  match lookup fac.cache (fkey r) with
-  | some (t, r') =>
-    match v with
-    | .pinned => (.ok t, st)
-    | .fixed =>
-      if r.extraArgs = r'.extraArgs ∧ r.kwargs = r'.kwargs ∧ r.subprocessArgs = r'.subprocessArgs
-          ∧ r.deps = r'.deps ∧ r.softDeps = r'.softDeps
-      then (.ok t, st) else (.valueError, st)
+  let hit := match v with
+    | .pinned => (lookup fac.cache (fkey r)).map (·.1)
+    | .fixed => findRun fac.cache (fkey r) r
+  match hit with
+  | some t => (.ok t, st)
   | none =>
     let (t, st) := st.newTask (runTaskName r fac.name) (.run f r)
     (.ok t, { st with factories := setAt st.factories f { fac with cache := fac.cache ++ [(fkey r, t, r)] } })
